@@ -47,3 +47,16 @@ Proof. vm_compute. reflexivity. Qed.
 Print Assumptions C08_methods.
 Print Assumptions C08_framing.
 Print Assumptions C08_cut.
+
+(* generated-code tie *)
+(* Gen/GoFuncs.v holds the Gallina TRANSLATION of the Go bodies of cutNewLines and
+   splitArgs, regenerated from the source on every run (translator/go2coq.go); it is equal
+   to the model — for every input, and it never panics (Proofs/GenEqSplit.v). *)
+From Verif Require Import GoFuncs GenEqSplit.
+Theorem gen_C08_cutNewLines : forall s, go_client_cutNewLines s = Ok (cut_newlines s).
+Proof. exact go_cutNewLines_eq. Qed.
+Theorem gen_C08_splitArgs : forall args maxLen,
+  go_client_splitArgs args maxLen = Ok (split_args args maxLen).
+Proof. exact go_splitArgs_eq. Qed.
+Print Assumptions gen_C08_cutNewLines.
+Print Assumptions gen_C08_splitArgs.
